@@ -94,6 +94,13 @@ theorem C17_code (limit pre I : Nat) (progs : List (List Op)) (σ : List Nat) (h
       (run protoCode limit (init pre (progs.map (fun p => (I, p)))) σ).occ = true :=
   C17_main_mutex protoCode limit pre I progs σ rfl rfl rfl rfl hpre
 
+/-- The same with `d` entries in the client's index that are not active (revoked / used codes): each
+count reads them too (`cnt n = n + d` storage reads) and does not count them. -/
+theorem C17_code_dead (d limit pre I : Nat) (progs : List (List Op)) (σ : List Nat) (hpre : capOk false limit pre = true) :
+    holds false limit pre (run { protoCode with cnt := fun n => n + d } limit (init pre (progs.map (fun p => (I, p)))) σ).trace
+      (run { protoCode with cnt := fun n => n + d } limit (init pre (progs.map (fun p => (I, p)))) σ).occ = true :=
+  C17_main_mutex { protoCode with cnt := fun n => n + d } limit pre I progs σ rfl rfl rfl rfl hpre
+
 /-- Quota on active mappings: `ActivateConnectionCode` (`mappingQuotaMu`; `GetClientPortMappings` +
 count + check, `CreatePortMapping`). -/
 theorem C17_mapq (limit pre I : Nat) (progs : List (List Op)) (σ : List Nat) (hpre : capOk false limit pre = true) :
@@ -464,6 +471,12 @@ theorem C17_slot_counter (limit : Nat) (σ : List C17Slot.Sch) :
     ((C17Slot.run true limit C17Slot.init σ).tunnels.length : Int) ≤ (C17Slot.run true limit C17Slot.init σ).cnt := by
   have h := C17Slot.inv_run σ _ (C17Slot.inv_init limit)
   refine ⟨?_, h.cap, ?_⟩ <;> rw [h.cnt] <;> omega
+
+/-- Error paths: a failing `DialTunnel` (after the slot was taken) and a failing `RegisterTunnel` give
+the slot back exactly once; the next connection gets it. -/
+example :
+    (C17Slot.run true 1 C17Slot.init [.stepFail 0, .step 1, .stepFail 1, .step 2, .step 2, .step 2, .stepFail 3]).trace
+      = [.dfl 0 0, .acq 1 0, .rfl 1 0, .acq 2 0, .reg 2 1, .sta 2 1, .ref 3 1] := by decide
 
 /-- **Release without `sync.OnceFunc` (seeded regression `mapping-slot-released-twice`).** The tunnel
 of connection 0 is closed between `RegisterTunnel` and `Start`: `OnClosed` gives the slot back,
